@@ -442,6 +442,23 @@ func checkC04(c *core.Check) {
 					sup = append(sup, se)
 				}
 				rc.RawQuery = q.Encode()
+				if caseN%2 == 0 {
+					// undeclared neighbours: keys and values that contain a declared name (before and after the real pairs),
+					// header lines whose names extend a declared one - none of them is the parameter
+					for _, d := range ds {
+						if d.In == "query" {
+							pre, post := "parent_"+d.Name+"=7&note="+d.Name+"=3", d.Name+"s=8&x"+d.Name+"=9&"+d.Name+"_=1"
+							if rc.RawQuery == "" {
+								rc.RawQuery = pre + "&" + post
+							} else {
+								rc.RawQuery = pre + "&" + rc.RawQuery + "&" + post
+							}
+						} else {
+							rc.Headers["X-Parent-"+d.Name] = []string{"7"}
+							rc.Headers[d.Name+"-Other"] = []string{"8"}
+						}
+					}
+				}
 				g.Cases = append(g.Cases, rc)
 				meta[cid] = caseMeta{op: opID, decls: ds, sup: sup}
 			}
